@@ -85,7 +85,8 @@ def _build(spec, mods, root):
         if "__map__" in spec:
             return {_build(k, mods, root): _build(v, mods, root) for k, v in spec["__map__"]}
         if "__enum__" in spec:
-            return _lookup(spec["__enum__"], mods, root)(spec["value"])
+            E = _lookup(spec["__enum__"], mods, root)
+            return E.try_value(spec["value"]) if spec.get("undefined") else E(spec["value"])
         if "__datetime_us__" in spec:
             return datetime.datetime(1970, 1, 1, tzinfo=datetime.timezone.utc) + datetime.timedelta(microseconds=spec["__datetime_us__"])
         if "__timedelta_us__" in spec:
@@ -1163,6 +1164,7 @@ def run(ctx):
             if bi == 0:
                 schemas.append(G.systematic_schema(rng, "s0"))
                 schemas.append(G.alias_schema(rng, "al0"))
+                schemas.append(G.twofile_schema(rng, "tf0"))
                 for ci, entry in enumerate(load_corpus()):
                     try:
                         schemas.append(corpus_schema(entry, f"k{ci}"))
